@@ -232,6 +232,7 @@ class Inner:
 class Tracker(TR.MeasurementTrackingBackend):
     def record_raw_measurement_data(self, circuit, measurement):
         self.recorded = getattr(self, "recorded", 0) + 1
+        self.seen = getattr(self, "seen", []) + [measurement]
 
     def save_raw_data(self):
         self.saved = getattr(self, "saved", 0) + 1
@@ -250,6 +251,38 @@ def h_tracker_single(c0: int, j0: int, n: int) -> bool:
     except ValueError:
         return n <= 0 and t.n_circuits_executed == c0 and t.n_jobs_executed == j0 and inner.calls == []
     return n > 0 and isinstance(out, FakeM) and out.n == n and inner.calls == [("single", "c", n)] and t.n_circuits_executed == c0 + 1 and t.n_jobs_executed == j0 + 1 and t.recorded == 1
+
+
+class PadM(FakeM):
+    def __init__(self, n, pad):
+        self.n = n
+        self.bitstrings = [(0, 1)] * (n + pad)
+
+
+class PaddingInner(Inner):
+    """an inner runner that returns MORE shots than requested (the contract allows it)"""
+
+    def __init__(self, pad):
+        Inner.__init__(self)
+        self.pad = pad
+
+    def run_and_measure(self, c, n):
+        if n <= 0:
+            raise ValueError("bad")
+        self.calls.append(("single", c, n))
+        self.last_single = PadM(n, self.pad)
+        return self.last_single
+
+
+def h_tracker_single_padded(n: int, pad: int) -> bool:
+    """
+    pre: 1 <= n <= 3 and 0 <= pad <= 2
+    post: _
+    """
+    inner = PaddingInner(pad)
+    t = Tracker(inner, "unused")
+    out = t.run_and_measure("c", n)
+    return out is inner.last_single and len(out.bitstrings) == n + pad and t.recorded == 1 and t.seen[-1] is out
 
 
 def h_tracker_batch(c0: int, j0: int, ns: List[int], k: int) -> bool:
@@ -397,6 +430,47 @@ def tracker_ground_bad(case, n, record_bitstrings):
     return None
 
 
+def tracker_padded_bad(n, pad, record_bitstrings):
+    """the real tracker (real JSON file) around a base-class runner that pads its shots: the tracker returns exactly what
+    the wrapped runner returned and the record matches it"""
+    from orquestra.quantum.api.circuit_runner import BaseCircuitRunner
+    from orquestra.quantum.measurements import Measurements
+    from orquestra.quantum.runners.trackers import MeasurementTrackingBackend
+    from orquestra.quantum.circuits import Circuit, X, H
+
+    class Padding(BaseCircuitRunner):
+        def __init__(self):
+            super().__init__()
+            self.returned = []
+
+        def _run_and_measure(self, circuit, n_samples):
+            m = Measurements([tuple((i + q) % 2 for q in range(circuit.n_qubits)) for i in range(n_samples + pad)])
+            self.returned.append(m)
+            return m
+
+    c = Circuit([X(0), H(1)])
+    fd, path = tempfile.mkstemp(prefix="vf-c14-", dir="/var/tmp")
+    os.close(fd)
+    try:
+        inner = Padding()
+        t = MeasurementTrackingBackend(inner, path, record_bitstrings)
+        out = t.run_and_measure(c, n)
+        if out is not inner.returned[-1]:
+            return f"tracker returned {len(out.bitstrings)} shots in a new object; the wrapped runner returned {len(inner.returned[-1].bitstrings)}"
+        r = json.load(open(path))["raw-data"][-1]
+        if r["number_of_shots"] != n + pad or r["counts"] != inner.returned[-1].get_counts():
+            return f"record (shots {r['number_of_shots']}, counts {r['counts']}) does not match what the wrapped runner returned ({n + pad} shots)"
+        outs = t.run_batch_and_measure([c, c], [n, n + 1])
+        if [len(o.bitstrings) for o in outs] != [len(m.bitstrings) for m in inner.returned[-2:]] or any(a is not b for a, b in zip(outs, inner.returned[-2:])):
+            return "batch results are not the wrapped runner's results"
+        rec = json.load(open(path))["raw-data"]
+        if [x["number_of_shots"] for x in rec[-2:]] != [len(o.bitstrings) for o in outs]:
+            return "batch records do not match the wrapped runner's results"
+    finally:
+        os.unlink(path)
+    return None
+
+
 def work(item):
     kind, p = item
     res = Result(f"{kind}|{p['label']}")
@@ -404,7 +478,7 @@ def work(item):
     res.d["instances"] -= 1
     res.ob(1)
     try:
-        bad = sim_ground_bad(p["case"], p["n"]) if kind == "sim-ground" else tracker_ground_bad(p["case"], p["n"], p["rb"])
+        bad = sim_ground_bad(p["case"], p["n"]) if kind == "sim-ground" else tracker_padded_bad(p["n"], p["pad"], p["rb"]) if kind == "tracker-padded" else tracker_ground_bad(p["case"], p["n"], p["rb"])
     except Exception as e:
         import traceback
 
@@ -456,6 +530,9 @@ def run(ctx):
             items.append(("sim-ground", {"case": case, "n": n, "label": f"simulator {case} n={n}"}))
         for rb in (False, True):
             items.append(("tracker-ground", {"case": case, "n": 3, "rb": rb, "label": f"tracker {case} n=3 record_bitstrings={rb}"}))
+    for n, pad in ((1, 0), (1, 3), (5, 1), (10, 6)):
+        for rb in (False, True):
+            items.append(("tracker-padded", {"n": n, "pad": pad, "rb": rb, "label": f"tracker around a padding runner n={n} pad={pad} record_bitstrings={rb}"}))
     if only:
         items = [it for it in items if only in it[1]["label"] or only == it[0]]
     for it, out in pmap(work, items):
@@ -484,7 +561,7 @@ def replay(data):
                 return True, f"harness raised {type(e).__name__}: {e} for {inp['args']}"
             return (r is False), f"{inp['harness']}({inp['args']}) returned {r}"
         p = inp
-        bad = sim_ground_bad(p["case"], p["n"]) if inp["clause"] == "sim-ground" else tracker_ground_bad(p["case"], p["n"], p["rb"])
+        bad = sim_ground_bad(p["case"], p["n"]) if inp["clause"] == "sim-ground" else tracker_padded_bad(p["n"], p["pad"], p["rb"]) if inp["clause"] == "tracker-padded" else tracker_ground_bad(p["case"], p["n"], p["rb"])
         return bool(bad), bad or "ok"
     except Exception:
         import traceback
